@@ -54,8 +54,16 @@ class Inst:
     def new(self, fresh_fluid: bool = False):
         from bluebonnet.flow import IdealReservoir, SinglePhaseReservoir  # noqa: PLC0415
 
-        cls = IdealReservoir if self.kind == "ideal" else SinglePhaseReservoir
         fluid = flow_properties(shipped_table(self.table), self.pi) if fresh_fluid else self.fluid()
+        if self.kind == "twophase":
+            from bluebonnet.flow import TwoPhaseReservoir  # noqa: PLC0415
+
+            return TwoPhaseReservoir(self.nx, self.pf, self.pi, fluid, 0.1)
+        if self.kind == "multiphase":
+            from bluebonnet.flow import MultiPhaseReservoir  # noqa: PLC0415
+
+            return MultiPhaseReservoir(self.nx, self.pf, self.pi, fluid)
+        cls = IdealReservoir if self.kind == "ideal" else SinglePhaseReservoir
         return cls(self.nx, self.pf, self.pi, fluid)
 
     def sched(self, s: str, g: str):
@@ -166,7 +174,8 @@ def apply(inst: Inst, obj, call: dict):
             else:
                 raise KeyError(call["op"])
         outcome = "ok"
-    except (RuntimeError, ValueError, AttributeError, IndexError, TypeError, KeyError, ZeroDivisionError) as ex:
+    except (RuntimeError, ValueError, AttributeError, IndexError, TypeError, KeyError, ZeroDivisionError,
+            NotImplementedError) as ex:
         outcome = type(ex).__name__
         ret = None
     proj = (_bytes(getattr(obj, "time", None)), _bytes(getattr(obj, "pseudopressure", None)), _bytes(ret))
@@ -207,6 +216,8 @@ def canonical_program(obs: dict) -> list[dict]:
 
 
 def all_observations(kind: str) -> list[dict]:
+    if kind == "multiphase":
+        return []   # nothing ever succeeds on a MultiPhaseReservoir
     scheds = ["ctor", "S"] if kind == "single" else ["ctor"]
     out = []
     for g in "ABC":
@@ -257,6 +268,8 @@ def reference_table(kind: str, variant: int) -> dict:
             roots.append(obs["of"])
     ctx = mp.get_context("spawn")
     table = {}
+    if not roots:
+        return table
     with ctx.Pool(processes=min(8, len(roots)), maxtasksperchild=1) as pool:
         for part in pool.map(_reference_group, [(kind, variant, of) for of in roots], chunksize=1):
             table.update(part)
